@@ -1448,6 +1448,27 @@ func c04j(c *Ctx) {
 			c.Unk(f.Name+" bundle", "the slice given to marshalStagedUploads was not found")
 			continue
 		}
+		// slices whose elements end up in the bundle: the bundle itself, and any slice spliced into one
+		// of them with append(dst, src...)
+		feeds := map[types.Object]bool{bundle: true}
+		for changed := true; changed; {
+			changed = false
+			ast.Inspect(f.Body, func(n ast.Node) bool {
+				as, ok := n.(*ast.AssignStmt)
+				if !ok || len(as.Lhs) != 1 || len(as.Rhs) != 1 || !feeds[objOf(info, as.Lhs[0])] {
+					return true
+				}
+				call, isCall := ast.Unparen(as.Rhs[0]).(*ast.CallExpr)
+				if !isCall || !isBuiltinCall(info, call, "append") || len(call.Args) != 2 || !call.Ellipsis.IsValid() || !feeds[objOf(info, call.Args[0])] {
+					return true
+				}
+				if src := objOf(info, f.copyRoot(call.Args[1])); src != nil && isLocal(src) && !feeds[src] {
+					feeds[src] = true
+					changed = true
+				}
+				return true
+			})
+		}
 		// every uploadAction built by the round is appended to the bundle slice
 		nLit := 0
 		for _, s := range f.Find(func(n ast.Node) bool {
@@ -1461,8 +1482,8 @@ func c04j(c *Ctx) {
 			nLit++
 			inst := fmt.Sprintf("%s upload action #%d in the bundle", f.Name, nLit)
 			okApp := false
-			if as, isAs := s.Node.(*ast.AssignStmt); isAs && len(as.Lhs) == 1 && len(as.Rhs) == 1 && objOf(info, as.Lhs[0]) == bundle {
-				if call, isCall := ast.Unparen(as.Rhs[0]).(*ast.CallExpr); isCall && isBuiltinCall(info, call, "append") && len(call.Args) >= 2 && objOf(info, call.Args[0]) == bundle {
+			if as, isAs := s.Node.(*ast.AssignStmt); isAs && len(as.Lhs) == 1 && len(as.Rhs) == 1 && feeds[objOf(info, as.Lhs[0])] {
+				if call, isCall := ast.Unparen(as.Rhs[0]).(*ast.CallExpr); isCall && isBuiltinCall(info, call, "append") && len(call.Args) >= 2 && objOf(info, call.Args[0]) == objOf(info, as.Lhs[0]) {
 					for _, a := range call.Args[1:] {
 						x := ast.Unparen(a)
 						if u, isU := x.(*ast.UnaryExpr); isU && u.Op == token.AND {
@@ -1472,6 +1493,53 @@ func c04j(c *Ctx) {
 							okApp = true
 						}
 					}
+				}
+			}
+			if !okApp {
+				// the action is first held in a variable, which is then appended to, or listed in the literal
+				// of, a slice that feeds the bundle
+				var holder types.Object
+				if as, isAs := s.Node.(*ast.AssignStmt); isAs && len(as.Lhs) == 1 && len(as.Rhs) == 1 {
+					r := ast.Unparen(as.Rhs[0])
+					if u, isU := r.(*ast.UnaryExpr); isU && u.Op == token.AND {
+						r = ast.Unparen(u.X)
+					}
+					if r == s.X {
+						if o := objOf(info, as.Lhs[0]); o != nil && isLocal(o) && len(f.Defs(o)) == 1 {
+							holder = o
+						}
+					}
+				}
+				if holder != nil {
+					isHolder := func(e ast.Expr) bool { return objOf(info, f.copyRoot(e)) == holder }
+					ast.Inspect(f.Body, func(n ast.Node) bool {
+						as, ok := n.(*ast.AssignStmt)
+						if !ok || len(as.Lhs) != len(as.Rhs) {
+							return true
+						}
+						for i := range as.Lhs {
+							if !feeds[objOf(info, as.Lhs[i])] {
+								continue
+							}
+							switch r := ast.Unparen(as.Rhs[i]).(type) {
+							case *ast.CallExpr:
+								if isBuiltinCall(info, r, "append") && len(r.Args) >= 2 && !r.Ellipsis.IsValid() && objOf(info, r.Args[0]) == objOf(info, as.Lhs[i]) {
+									for _, a := range r.Args[1:] {
+										if isHolder(a) {
+											okApp = true
+										}
+									}
+								}
+							case *ast.CompositeLit:
+								for _, el := range r.Elts {
+									if isHolder(el) {
+										okApp = true
+									}
+								}
+							}
+						}
+						return true
+					})
 				}
 			}
 			if okApp {
